@@ -520,6 +520,15 @@ def rand_info(rng, vars_: List[str]) -> Dict[str, List[str]]:
     return info
 
 
+def sample_for(ctx, stream: str, nontrivial: bool, sample: Any) -> Any:
+    """At most two recorded samples per stream, so that the evidence shows all three."""
+    seen = ctx.__dict__.setdefault("c14_samples", {})
+    if nontrivial and seen.get(stream, 0) < 2:
+        seen[stream] = seen.get(stream, 0) + 1
+        return sample
+    return None
+
+
 def run_stream_a(ctx, n: int):
     """model render vs real jinja2, whole files, every file of every backend; Spec on jinja2's output."""
     import vlib
@@ -550,7 +559,8 @@ def run_stream_a(ctx, n: int):
         nonempty = sum(1 for ls in info.values() if ls)
         ctx.count("A:backend:" + backend)
         ctx.count("A:nonempty-lists:%d" % min(nonempty, 6))
-        ctx.case(["A", backend, info], nonempty >= 2 and special, {"stream": "A", "backend": backend, "lists": info})
+        nt = nonempty >= 2 and special
+        ctx.case(["A", backend, info], nt, sample_for(ctx, "A", nt, {"stream": "A", "backend": backend, "lists": info}))
         if "bad" in m or "bad" in s:
             continue
         if "err" in r:
@@ -622,7 +632,8 @@ def run_stream_b(ctx, n: int, fields: List[str]):
         names = [x.get("name") for x in inj]
         ctx.count("B:impl:" + ("ok" if "ok" in r else r["err"]))
         ctx.count("B:items:%d" % min(len(mds), 8))
-        ctx.case(["B", mds], len(inj) >= 2 and (len(set(names)) < len(names) or "err" in r), {"stream": "B", "mds": mds, "implementation": r if "err" in r else {"ok": [b["name"] for b in r["ok"]]}})
+        nt = len(inj) >= 2 and (len(set(names)) < len(names) or "err" in r)
+        ctx.case(["B", mds], nt, sample_for(ctx, "B", nt and len(mds) >= 3, {"stream": "B", "mds": mds, "implementation": r if "err" in r else {"kept blocks": [b["name"] for b in r["ok"]]}}))
         if "bad" in m or "bad" in s:
             continue
         key = "process:" + json.dumps(mds, sort_keys=True, ensure_ascii=False)
@@ -699,7 +710,8 @@ def run_stream_c(ctx, n: int, fields: List[str]):
         if "props" in r:
             nf = sum(1 for p in PROPS if r["props"][p])
         ctx.count("C:nonempty-fields:%d" % nf)
-        ctx.case(["C", c["backend"], c["query"], c["mds"]], nf >= 2 or "err" in r, {"stream": "C", "backend": c["backend"], "mds": c["mds"], "outcome": "generated" if "files" in r else r.get("err")})
+        nt = nf >= 2 or "err" in r
+        ctx.case(["C", c["backend"], c["query"], c["mds"]], nt, sample_for(ctx, "C", nf >= 3, {"stream": "C", "backend": c["backend"], "mds": c["mds"], "outcome": "generated" if "files" in r else r.get("err")}))
         if "bad" in m or "bad" in s:
             continue
         judge_pipeline(ctx, c, m, s)
@@ -742,13 +754,14 @@ def key_of(inp: Dict[str, Any]) -> str:
 
 def replay_known(ctx, fields: List[str]):
     """Findings stream: every listed input is replayed on the real code."""
+    entries = [(st, e) for st in ("known", "fixed") for e in ctx.known_entries(st)]
+    if not entries:
+        return
     base = Baseline(ctx, fields)
-    for status in ("known", "fixed"):
-        for e in ctx.known_entries(status):
-            rc, v = replay_input(ctx, e["input"], base, fields)
-            if v is not None:
-                key = e["key"] if status == "known" else "regressed:" + e["key"]
-                ctx.violation(key=key, what=v["what"], case=v["case"], observed=v.get("observed"), how=v.get("how", ""))
+    for (status, e), v in zip(entries, replay_inputs(ctx, [e["input"] for _, e in entries], base, fields)):
+        if v is not None:
+            key = e["key"] if status == "known" else "regressed:" + e["key"]
+            ctx.violation(key=key, what=v["what"], case=v["case"], observed=v.get("observed"), how=v.get("how", ""))
 
 
 def prepare_input(ctx, inp: Dict[str, Any], base: Optional["Baseline"], fields: List[str]):
@@ -848,12 +861,15 @@ def run(ctx):
             ctx.notes.append(f"templates of {b} are not at their documented places: {g.get('detail')}")
 
     replay_known(ctx, fields)
-    for c in vlib.corpus_cases(ID):
-        rc, v = replay_input(ctx, c.get("case", c), None, fields)
-        ctx.case(["corpus", c], True)
-        ctx.count("corpus")
-        if v is not None:
-            ctx.violation(key="corpus:" + json.dumps(c, sort_keys=True, ensure_ascii=False)[:300], what=v["what"], case=v["case"], observed=v.get("observed"), how=v.get("how", ""))
+    corpus = [c.get("case", c) for c in vlib.corpus_cases(ID)]
+    corpus = [c for c in corpus if isinstance(c, dict) and c.get("stream") in ("A", "B", "C")]
+    if corpus:
+        base0 = Baseline(ctx, fields)
+        for c, v in zip(corpus, replay_inputs(ctx, corpus, base0, fields)):
+            ctx.case(["corpus", c], True)
+            ctx.count("corpus")
+            if v is not None:
+                ctx.violation(key=key_of(c), what=v["what"], case=v["case"], observed=v.get("observed"), how=v.get("how", ""))
 
     sizes = stream_sizes(ctx)
     run_stream_a(ctx, sizes["A"])
